@@ -212,10 +212,11 @@ class Surface(object):
             for e in c.all_entries():
                 if e.length:
                     a = (v.origin + e.start) * SECTOR
-                    img[a:a + e.length] = e.body
+                    img[a:a + len(e.body)] = e.body[:max(0, len(img) - a)]
                     # slack after the end of the file in its last sector keeps
                     # the fingerprint bytes: a tool that delivers too many
                     # bytes delivers recognisably foreign ones.
+        assert len(img) == n * SECTOR
         return bytes(img)
 
     def describe(self):
